@@ -106,6 +106,10 @@ LaunchResult run_launch(const Launch& l) {
     else if (WIFSIGNALED(status)) { r.sig = WTERMSIG(status); r.timed_out = (r.sig == SIGALRM); }
     r.out = read_file(base + ".out");
     r.err = read_file(base + ".err");
+    if (r.exited && r.code == 78 && getenv("VERIF_VGLOG_DIR")) {
+        // valgrind writes its report to its own log, not to the child's redirected stderr
+        r.err += read_file(std::string(getenv("VERIF_VGLOG_DIR")) + "/vg-" + std::to_string((long)pid) + ".log");
+    }
     bool ok = false;
     std::string s = read_file(base + ".sum", &ok);
     if (ok) {
